@@ -832,7 +832,9 @@ void SetBufFloat(float v, int &index, unsigned char *buf) {
 #define N2kUInt24OR 0xfffffe
 #define N2kInt32OR 0x7ffffffe
 #define N2kUInt32OR 0xfffffffe
+#define N2kInt64OR 0x7ffffffffffffffeLL
 
+#define N2kInt64Min (-9223372036854775807LL-1)
 #define N2kInt32Min -2147483648L
 #define N2kInt24Min -8388608L
 #define N2kInt16Min -32768
@@ -848,7 +850,9 @@ void SetBuf8ByteDouble(double v, double precision, int &index, unsigned char *bu
       vll=v*1e6L;
       vll*=fpll;
     } else {
-      vll=v/precision;
+      double vd=v/precision;
+      // (double)N2kInt64OR is 2^63, so every value passing the test can be converted
+      vll=(vd>=N2kInt64Min && vd<N2kInt64OR)?(int64_t)vd:N2kInt64OR;
     }
   } else {
     vll=N2kInt64NA;
